@@ -48,6 +48,7 @@ type HarnessSpec struct {
 	Bounds    string   `json:"bounds"`
 	Funcs     []string `json:"funcs,omitempty"` // anchored functions expected on executed paths
 	Summaries map[string]string `json:"summaries,omitempty"`
+	BudgetAsViolation bool `json:"budget_as_violation,omitempty"`
 }
 
 type Index struct {
@@ -362,7 +363,7 @@ func cmdCheck(args []string) int {
 				continue
 			}
 			jobs = append(jobs, interp.Job{Property: prop, Harness: h.Harness, Pkg: pkgPath(h.Pkg), Instance: i, Mode: h.Mode, Solver: h.Solver,
-				TimeoutMS: to, MaxSteps: h.MaxSteps, MaxDepth: h.MaxDepth, MaxPaths: h.MaxPaths, SliceS: 15, KFOpen: kfOpen, Summaries: h.Summaries})
+				TimeoutMS: to, MaxSteps: h.MaxSteps, MaxDepth: h.MaxDepth, MaxPaths: h.MaxPaths, SliceS: 15, KFOpen: kfOpen, Summaries: h.Summaries, BudgetAsViolation: h.BudgetAsViolation})
 		}
 	}
 	if len(jobs) == 0 {
@@ -523,6 +524,9 @@ func cmdCheck(args []string) int {
 					confirmed++
 					violLines = append(violLines, fmt.Sprintf("VIOLATION property=%s replay=%s", prop, path))
 					fmt.Printf("counterexample %s#%d: %s | native: %s\n", v.Harness, v.Instance, v.Msg, verdict.Summary)
+				} else if v.Kind == "budget" {
+					a.inconcl = append(a.inconcl, fmt.Sprintf("%s#%d: %s; the native run of a witness finished normally (%s), so this is a bound of the executor, not a hang", v.Harness, v.Instance, v.Msg, verdict.Summary))
+					inconclusive = true
 				} else {
 					refuted++
 					fmt.Printf("UNCONFIRMED counterexample %s#%d: %s | native replay: %s (encoder fault, not reported as violation) file=%s\n", v.Harness, v.Instance, v.Msg, verdict.Summary, path)
